@@ -171,6 +171,21 @@ def run(chk, rng, replay=None):
             if rng.random() < 0.5:    # curved equality constraints whose solution lies on a face: SOC steps near bounds
                 d["constraints"] = d.get("constraints", []) + [{"type": "nonlinear", "fun": {"kind": "parab", "c": [0.0] * len(d["x0"]), "r": 1.0,
                                                                 "a": float(np.round(rng.uniform(0.5, 3), 3)), "b": 0.0}, "lb": [0.0], "ub": [0.0]}]
+            b = d.get("bounds")
+            if b is not None and d.get("fun") and rng.random() < 0.5:
+                # iterates pressing against faces: the unconstrained minimiser lies outside the box in several coordinates,
+                # bound values that are not exactly representable, and (often) one variable fixed by equal bounds
+                n = len(d["x0"])
+                for i in range(n):
+                    lo, hi = b["lb"][i], b["ub"][i]
+                    if isinstance(lo, float) and isinstance(hi, float) and rng.random() < 0.7:
+                        d["fun"]["c"][i] = float(np.round(hi + rng.uniform(0.3, 2), 6)) if rng.random() < 0.5 else float(np.round(lo - rng.uniform(0.3, 2), 6))
+                if n > 1 and rng.random() < 0.6:
+                    i = int(rng.integers(n))
+                    v = float(np.round(rng.uniform(-1, 1), 1)) + 0.1     # e.g. 0.30000000000000004
+                    b["lb"][i], b["ub"][i] = v, v
+                d["fun"]["kind"] = "quad" if rng.random() < 0.7 else d["fun"]["kind"]
+                d["fun"].pop("bad", None)
             d["options"]["maxfev"] = max(40, int(d["options"].get("maxfev", 100)))
             d["options"].pop("maxiter", None)
             descs.append(d)
